@@ -143,7 +143,7 @@ def work(state_hists, open_ids, kd, menu_name):
             datas = inputs.data_maps(sorted(need), kd, 1, inputs.D_ROWS_Q, inputs.E_ROWS_Q)
             if step.get("order_by") or any(st.get("order_by") for st in hist["steps"]):
                 # window orders need null-free, tie-free rows whose two numeric columns sort differently
-                datas = datas + [dm for dm in inputs.data_maps(sorted(need), kd, 1, inputs.D_ROWS_NN, inputs.E_ROWS_Q) if len(dm["d"]["rows"]) > 0]
+                datas = datas + [dm for dm in inputs.data_maps(sorted(need), kd, 1, inputs.D_ROWS_NN[:1] + inputs.D_ROWS_NN[2:], inputs.E_ROWS_Q) if len(dm["d"]["rows"]) > 0]
             for data in datas:
                 part.count("traces_validated_against_impl")
                 # the pre-state is evaluated once per input and shared by all its outgoing transitions
@@ -190,7 +190,9 @@ def work(state_hists, open_ids, kd, menu_name):
 def run(tier):
     run = core.Run(PROP, tier)
     src_depth = 1 if tier == "quick" else 2
-    ex = explorer.Explorer(c06_menu if tier == "quick" else menus.core_menu)
+    # quick tier: source states from the thinner first-step menu plus the simplification entries; every
+    # source's outgoing transitions are taken from the full menu
+    ex = explorer.Explorer((lambda c, r, d, h: menus.core_menu_q(c, r, d, h) + simplification_items(c, r, d, h)) if tier == "quick" else menus.core_menu)
     states = ex.run(src_depth)
     hists = [s.hist for s in states]
     if tier != "quick":
@@ -210,7 +212,7 @@ def run(tier):
         exhaustive=True,
         rule=f"every outgoing transition (core menu + simplification entries: common-target extends, reads of replaced columns, swaps, re-selection/drop/order of columns an earlier select/drop removed, checked joins) of every state at depth <= {src_depth}"
         + (" (depth-2 sources restricted to extend/select/drop/rename/order chains)" if tier != "quick" else "")
-        + f", each on all multisets of <= {kd} rows over the 3-row alphabets (transitions involving an ordered window also on all multisets of <= {kd} rows of a null-free 4-row alphabet whose numeric columns sort differently)",
+        + f", each on all multisets of <= {kd} rows over the 3-row alphabets (transitions involving an ordered window also on all multisets of <= {kd} rows of a null-free 3-row alphabet whose numeric columns sort differently)",
     )
 
 
